@@ -12,7 +12,7 @@ CONSTANTS
   LimitL = 1
   AggA = 2
   BothDrain = "concurrent"
-  MaxWork = 5
+  MaxWork = 4
   Reduce = FALSE
   Survey = FALSE
 INIT Init
